@@ -10,7 +10,7 @@ lane="$1"
 cd "$lane" || exit 2
 git checkout -q -- . ; git checkout -q --detach "$(git -C /repo rev-parse HEAD)"; git reset -q --hard HEAD
 export GOFLAGS=-mod=mod GOPROXY=off
-for d in /verif/seeded/C*-* /verif/selftest/mutants/* /verif/selftest/harmless/*; do
+for d in /verif/seeded/C*-* /verif/seeded/_unconfirmed/C*-* /verif/selftest/mutants/* /verif/selftest/harmless/*; do
   [ -f "$d/patch.diff" ] || continue
   git reset -q --hard HEAD
   git apply --check "$d/patch.diff" 2>/dev/null && continue
